@@ -29,7 +29,7 @@ func vhHeartbeatWorld(timeout time.Duration) *vhHB {
 	f := e.GetOrAddFeature(model.FeatureTypeTypeDeviceDiagnosis, model.RoleTypeServer)
 	w.L.AddEntity(e)
 	sm := w.L.SubscriptionManager().(*SubscriptionManager)
-	sm.subscriptionNum = 1
+	vhSetSubscriptionNum(sm, 1)
 	sm.subscriptionEntries = []*api.SubscriptionEntry{{Id: 1, ServerFeature: f, ClientFeature: w.rA.FeatureByAddress(vhAddr("A", []uint{1}, 1))}}
 	return &vhHB{w: w, e: e, f: f, n0: len(w.wA.msgs)}
 }
